@@ -120,6 +120,7 @@ func (h *Session) findOrCreateHostWithLock(addr Addr) (host *Host, found bool) {
 	}
 	h.mutex.RUnlock()
 
+	verifYield("findOrCreate:upgrade")
 	// lock session for writing
 	h.mutex.Lock()
 	defer h.mutex.Unlock()
